@@ -5,12 +5,26 @@ CFG = {
                  "Parsley.C02.within_bound_accepted", "Parsley.C02.Spells.depth_le"],
     "partial": {
                 "(stack proportional to d)": "proved as: the nesting budget max-cur suffices (no budget panic) — the model's recursion depth is <= d; "
-                "the machine stack itself is observed only by the 10^5/10^6-deep runs"},
+                "the machine stack itself is observed by the 10^5/10^6-deep runs and by the width / length profiles (10^3..10^5, thorough 10^6 elements or bytes at one level), "
+                "all run on a thread with a fixed 1 MiB stack"},
     "n": {"quick": 3000, "thorough": 150000},
     "exhaustive": {"quick": False, "thorough": False},
     "rule": "every bound d in 0..64 x 3 opener kinds (array, dictionary value, mixed with siblings) x nesting depth k in {d-1,d,d+1,d+2}; "
             "random profiles (<= 13 openers, 7 leaf kinds) at random bounds with a random truncation each (failure point inside a nested object); "
-            "unclosed nesting of 10^3, 10^5 (thorough: 10^6) openers at d in {1,50,64}. non-trivial = input nesting >= 2 (distinct by case hash)",
+            "unclosed nesting of 10^3, 10^5 (thorough: 10^6) openers at d in {1,50,64}. "
+            "WIDTH profiles (`wide`): one array / dictionary with N elements / entries at ONE level, N in {300, 10^3, 10^4} (a handful 10^5; thorough: 3000, "
+            "10^5 everywhere, 10^6) x 12 element kinds (8 scalars incl. null-valued entries, [] <<>> [7] <</K 7>>) x d in {2,3,50,64} x the wide level at nesting "
+            "position 1, d/2, d-1 (elements exactly at the bound) and d (one beyond: rejected) inside array / dictionary-value / mixed wrappers, plus a last element "
+            "one level deeper than its siblings (rejected only after the whole width). LENGTH profiles (`run`): 20 kinds of one long run - literal strings "
+            "(plain, N nested parentheses, N escapes), names (plain, #xx), hex strings (plain, with white space), numbers (N leading zeros; N digits / fraction "
+            "digits beyond i128: rejected), white space / CRLF / N comments / one long comment before a token, inside [ ], << >>, between key and value, inside "
+            "a reference, one long key - N in {10^3, 10^4, 10^5} (thorough: 10^6) at top level, half way and at the bound. Expected: accepted iff the input's "
+            "nesting <= d, with the right value, compared as a digest (span, cursor, #nodes, depth, largest width, order-sensitive checksum) computed by the "
+            "oracle from the description alone; a crash or hang of the harness process is a violation. The harness runs EVERY case on a thread with a FIXED "
+            "1 MiB stack (a worker thread of a user of the crate), so the verdict does not depend on the 8 MiB main thread; the unchanged code needs < 1/4 of it "
+            "at d = 64. The list-based model is quadratic in the width: it runs the profiles of estimated work <= 6*10^8 list cells (widths 300, 10^3, arrays "
+            "3000; all `run` kinds but comment runs up to 10^6); above that the model's line is the closed form, confirmed by the smaller widths of the same "
+            "family. non-trivial = input nesting >= 2 (distinct by case hash), width / run length >= 1000",
     "trusted_base": COMMON_TB + ["modelled, not verified: ParseBuffer primitives as list functions; the real machine stack"],
     "assumptions": ["depth of a value = number of nested parse_pdf_obj activations needed to parse it (scalar or empty container = 1)"],
 }
